@@ -426,30 +426,40 @@ func r17_4(c *RC) {
 	var polarity ssa.Value
 	instrs(fn, func(_ *ssa.BasicBlock, _ int, in ssa.Instruction) {
 		bo, ok := in.(*ssa.BinOp)
-		if !ok || bo.Op != token.EQL {
+		if !ok || (bo.Op != token.EQL && bo.Op != token.NEQ) {
 			return
 		}
-		if phi, ok := bo.X.(*ssa.Phi); ok && strings.HasSuffix(phi.Type().String(), "uint8") {
-			if _, ok := constInt(bo.Y); ok {
-				polarity = phi
+		for _, pr := range [][2]ssa.Value{{bo.X, bo.Y}, {bo.Y, bo.X}} {
+			if phi, ok := pr[0].(*ssa.Phi); ok && strings.HasSuffix(phi.Type().String(), "uint8") {
+				if _, ok := constInt(pr[1]); ok {
+					polarity = phi
+				}
 			}
 		}
 	})
-	// the branch on chunkIndex == 0 directly after padding is computed
-	var firstIf *ssa.If
-	instrs(fn, func(b *ssa.BasicBlock, _ int, in ssa.Instruction) {
-		iff, ok := in.(*ssa.If)
-		if !ok || firstIf != nil || b != padding.(ssa.Instruction).Block() {
-			return
+	// the chunk index: what the decoder asks the chunk mask for
+	var chunkIndex ssa.Value
+	instrs(fn, func(_ *ssa.BasicBlock, _ int, in ssa.Instruction) {
+		if cl, ok := in.(*ssa.Call); ok && (calleeName(cl) == "lowEntropyChunkMask" || calleeName(cl) == "rotateLowEntropyMask") && len(cl.Common().Args) == 3 {
+			for _, l := range Leaves(cl.Common().Args[2], nil) {
+				if phi, ok := l.(*ssa.Phi); ok {
+					chunkIndex = phi
+				}
+			}
 		}
-		if bo, ok := iff.Cond.(*ssa.BinOp); ok && bo.Op == token.EQL {
-			if k, ok := constInt(bo.Y); ok && k == 0 {
-				firstIf = iff
+		// ... and where it reads the chunk: encoded[chunkIndex*8:]
+		if sl, ok := in.(*ssa.Slice); ok && chunkIndex == nil {
+			if bo, ok := sl.Low.(*ssa.BinOp); ok && bo.Op == token.MUL {
+				for _, v := range []ssa.Value{bo.X, bo.Y} {
+					if phi, ok := v.(*ssa.Phi); ok {
+						chunkIndex = phi
+					}
+				}
 			}
 		}
 	})
-	if polarity == nil || firstIf == nil {
-		c.Undecided("padding-structure", fn.Pos(), "cannot identify the polarity variable / the first-chunk branch of the decoder loop")
+	if polarity == nil || chunkIndex == nil {
+		c.Undecided("padding-structure", fn.Pos(), "cannot identify the polarity variable / the chunk index of the decoder loop")
 		return
 	}
 	const mask = 0xF0F0
@@ -457,10 +467,18 @@ func r17_4(c *RC) {
 		cl, ok := in.(ssa.CallInstruction)
 		return ok && calleeName(cl) == "PEXT"
 	}
-	run := func(start *ssa.BasicBlock, pol, pad int64) (accept, reject bool) {
-		f := &Folder{P: p, Stop: stop}
-		preset := map[ssa.Value]cval{padding: cInt(pad), paddingMask: cInt(mask), polarity: cInt(pol)}
-		outs := f.EvalFrom(fn, start, firstIf.Block(), preset)
+	// Fold the rest of one loop iteration from the block that computes the
+	// padding, with the case under study pinned: chunk index (0 = first),
+	// polarity learnt so far, padding bits and padding mask.
+	padBlock := padding.(ssa.Instruction).Block()
+	var padPred *ssa.BasicBlock
+	if len(padBlock.Preds) > 0 {
+		padPred = padBlock.Preds[0]
+	}
+	run := func(idx, pol, pad int64) (accept, reject bool) {
+		pin := map[ssa.Value]cval{padding: cInt(pad), paddingMask: cInt(mask), polarity: cInt(pol), chunkIndex: cInt(idx)}
+		f := &Folder{P: p, Stop: stop, Pin: pin}
+		outs := f.EvalFrom(fn, padBlock, padPred, pin)
 		for _, o := range outs {
 			if o.Stopped != nil {
 				accept = true
@@ -471,46 +489,45 @@ func r17_4(c *RC) {
 		}
 		return
 	}
+	at := padding.Pos()
 	// later chunks
-	later := firstIf.Block().Succs[1]
 	for _, pol := range []int64{0, 1} {
 		for _, pad := range []struct {
 			name string
 			v    int64
 		}{{"all-zero", 0}, {"all-one", mask}, {"mixed", 0x00F0}, {"single-bit", 0x0010}} {
 			want := (pol == 0 && pad.v == 0) || (pol == 1 && pad.v == mask)
-			acc, rej := run(later, pol, pad.v)
+			acc, rej := run(1, pol, pad.v)
 			key := fmt.Sprintf("later-chunk:polarity%d:%s", pol, pad.name)
 			switch {
 			case want && acc && !rej:
-				c.OKH(key, later.Instrs[0].Pos(), "accepted (canonical)")
+				c.OKH(key, at, "accepted (canonical)")
 			case !want && rej && !acc:
-				c.OKH(key, later.Instrs[0].Pos(), "rejected")
+				c.OKH(key, at, "rejected")
 			case !want && acc:
-				c.Bad(key, firstIf.Pos(), "a later chunk with polarity %d and %s padding is ACCEPTED: the decoder accepts byte strings the encoder never produces (padding is outside the AEAD, so an on-path party can alter it)", pol, pad.name)
+				c.Bad(key, at, "a later chunk with polarity %d and %s padding is ACCEPTED: the decoder accepts byte strings the encoder never produces (padding is outside the AEAD, so an on-path party can alter it)", pol, pad.name)
 			case want && !acc:
-				c.Bad(key, firstIf.Pos(), "a later chunk with canonical padding (polarity %d, %s) is rejected", pol, pad.name)
+				c.Bad(key, at, "a later chunk with canonical padding (polarity %d, %s) is rejected", pol, pad.name)
 			default:
-				c.Undecided(key, firstIf.Pos(), "fold gave accept=%v reject=%v", acc, rej)
+				c.Undecided(key, at, "fold gave accept=%v reject=%v", acc, rej)
 			}
 		}
 	}
 	// first chunk: only all-zero / all-one accepted
-	firstB := firstIf.Block().Succs[0]
 	for _, pad := range []struct {
 		name string
 		v    int64
 	}{{"all-zero", 0}, {"all-one", mask}, {"mixed", 0x00F0}} {
 		want := pad.v == 0 || pad.v == mask
-		acc, rej := run(firstB, 0, pad.v)
+		acc, rej := run(0, 0, pad.v)
 		key := "first-chunk:" + pad.name
 		switch {
 		case want && acc && !rej:
-			c.OKH(key, firstB.Instrs[0].Pos(), "accepted, fixes the polarity")
+			c.OKH(key, at, "accepted, fixes the polarity")
 		case !want && rej && !acc:
-			c.OKH(key, firstB.Instrs[0].Pos(), "rejected")
+			c.OKH(key, at, "rejected")
 		default:
-			c.Bad(key, firstIf.Pos(), "first chunk with %s padding: accept=%v reject=%v (want accept=%v)", pad.name, acc, rej, want)
+			c.Bad(key, at, "first chunk with %s padding: accept=%v reject=%v (want accept=%v)", pad.name, acc, rej, want)
 		}
 	}
 }
